@@ -384,4 +384,557 @@ example :
 example : (timePoints [⟨8, [⟨.onset, ['a']⟩], [(8, [⟨.offset, ['a']⟩])]⟩, ⟨16, [⟨.inset, ['a']⟩], []⟩]).map
     (fun r => (r.time, r.markers.length, r.orig)) = [(8, 1, 0), (16, 2, 1)] := by decide
 
+
+/-! ## growth: stability, order inside a time point, closed form, file order, group shape -/
+
+/-- the rows of a frame whose (effective) time is `τ` -/
+def atTime (τ : Int) (r : TRow) : Bool := r.time == τ
+
+theorem insertRow_filter (τ : Int) (x : TRow) (l : List TRow) :
+    (insertRow x l).filter (atTime τ) = (x :: l).filter (atTime τ) := by
+  induction l with
+  | nil => rfl
+  | cons y ys ih =>
+    simp only [insertRow]
+    split
+    · rfl
+    · rename_i hle
+      simp only [List.filter_cons, ih]
+      by_cases hx : x.time = τ <;> by_cases hy : y.time = τ <;> simp_all [atTime]
+
+/-- **Stable.** Sorting keeps the frame order of the rows that share an effective time. -/
+theorem sortRows_stable (l : List TRow) (τ : Int) :
+    (sortRows l).filter (atTime τ) = l.filter (atTime τ) := by
+  induction l with
+  | nil => rfl
+  | cons x xs ih => simp only [sortRows, insertRow_filter, List.filter_cons, ih]
+
+/-- what `filter_series_by_onset` makes of the rows sharing one time: one row, the first one's index -/
+def squash : List TRow → List TRow
+  | [] => []
+  | r :: rs => [⟨r.time, (r :: rs).flatMap (·.markers), r.orig⟩]
+
+theorem sorted_head_le {x : TRow} {l : List TRow} (h : Sorted (x :: l)) : ∀ y ∈ l, x.time ≤ y.time := by
+  induction l generalizing x with
+  | nil => simp
+  | cons z zs ih =>
+    intro y hy
+    rcases List.mem_cons.mp hy with rfl | hy
+    · exact h.1
+    · have := ih h.2 y hy
+      have := h.1
+      omega
+
+theorem filter_eq_nil_of_lt {x : TRow} {l : List TRow} (h : ∀ y ∈ l, x.time < y.time) :
+    l.filter (atTime x.time) = [] := by
+  simp only [List.filter_eq_nil_iff, atTime]
+  intro y hy
+  have := h y hy
+  simp; omega
+
+theorem mergeRows_filter (l : List TRow) (h : Sorted l) (τ : Int) :
+    (mergeRows l).filter (atTime τ) = squash (l.filter (atTime τ)) := by
+  induction l with
+  | nil => rfl
+  | cons x xs ih =>
+    have ih' := ih (sorted_tail h)
+    cases xs with
+    | nil =>
+      by_cases hx : x.time = τ
+      · subst hx; simp [mergeRows, atTime, squash]
+      · simp [mergeRows, atTime, hx, squash]
+    | cons z zs =>
+      obtain ⟨y, ys, hy, hyt⟩ := mergeRows_head_time zs z
+      have hle := sorted_head_le h
+      rw [mergeRows, hy]
+      rw [hy] at ih'
+      simp only
+      split
+      · rename_i heq
+        by_cases hx : x.time = τ
+        · subst hx
+          have hyτ : atTime x.time y = true := by simp [atTime]; omega
+          have hzτ : atTime x.time z = true := by simp [atTime]; omega
+          have hxτ : atTime x.time x = true := by simp [atTime]
+          have hmτ : atTime x.time ⟨x.time, x.markers ++ y.markers, x.orig⟩ = true := by simp [atTime]
+          rw [List.filter_cons, hyτ, List.filter_cons, hzτ] at ih'
+          rw [List.filter_cons, hmτ, List.filter_cons, hxτ, List.filter_cons, hzτ]
+          simp only [↓reduceIte, squash, List.cons.injEq] at ih' ⊢
+          obtain ⟨ih1, ih2⟩ := ih'
+          rw [ih2, ih1]
+          simp [List.flatMap_cons]
+        · have hyτ : atTime τ y = false := by simp [atTime]; omega
+          have hxτ : atTime τ x = false := by simp [atTime]; omega
+          have hmτ : atTime τ ⟨x.time, x.markers ++ y.markers, x.orig⟩ = false := by simp [atTime]; omega
+          rw [List.filter_cons, hyτ] at ih'
+          rw [List.filter_cons, hmτ, List.filter_cons, hxτ]
+          simpa using ih'
+      · rename_i hne
+        have hlt : ∀ w ∈ z :: zs, x.time < w.time := by
+          intro w hw
+          have h2 := hle z (by simp)
+          have h3 := sorted_head_le (sorted_tail h)
+          rcases List.mem_cons.mp hw with rfl | hw'
+          · omega
+          · have := h3 w hw'; omega
+        by_cases hx : x.time = τ
+        · subst hx
+          have hnil := filter_eq_nil_of_lt hlt
+          have hxτ : atTime x.time x = true := by simp [atTime]
+          rw [List.filter_cons, hxτ, ih', hnil]
+          rw [List.filter_cons, hxτ, hnil]
+          simp [squash]
+        · have hxτ : atTime τ x = false := by simp [atTime]; omega
+          rw [List.filter_cons (x := x) (xs := y :: ys), hxτ, List.filter_cons (x := x) (xs := z :: zs), hxτ]
+          simpa using ih'
+
+theorem timePoints_filter (rows : List Row) (τ : Int) :
+    (timePoints rows).filter (atTime τ) = squash ((splitRows rows).filter (atTime τ)) := by
+  unfold timePoints
+  rw [mergeRows_filter _ (sortRows_sorted _), sortRows_stable]
+
+theorem strict_tail {x : TRow} {l : List TRow} (h : StrictSorted (x :: l)) : StrictSorted l := by
+  cases l with
+  | nil => trivial
+  | cons y ys => exact h.2
+
+theorem strict_head_lt {x : TRow} {l : List TRow} (h : StrictSorted (x :: l)) :
+    ∀ y ∈ l, x.time < y.time := by
+  induction l generalizing x with
+  | nil => simp
+  | cons z zs ih =>
+    intro y hy
+    rcases List.mem_cons.mp hy with rfl | hy
+    · exact h.1
+    · have := ih h.2 y hy
+      have := h.1
+      omega
+
+theorem strict_filter_self {l : List TRow} (h : StrictSorted l) {tp : TRow} (hm : tp ∈ l) :
+    l.filter (atTime tp.time) = [tp] := by
+  induction l with
+  | nil => simp at hm
+  | cons x xs ih =>
+    rcases List.mem_cons.mp hm with rfl | hm'
+    · have hxτ : atTime tp.time tp = true := by simp [atTime]
+      rw [List.filter_cons, hxτ, filter_eq_nil_of_lt (strict_head_lt h)]
+      rfl
+    · have := strict_head_lt h tp hm'
+      have hxτ : atTime tp.time x = false := by simp [atTime]; omega
+      rw [List.filter_cons, hxτ]
+      exact ih (strict_tail h) hm'
+
+theorem strict_pairwise {l : List TRow} (h : StrictSorted l) : (l.map (·.time)).Pairwise (· < ·) := by
+  induction l with
+  | nil => simp
+  | cons x xs ih =>
+    simp only [List.map_cons, List.pairwise_cons, List.mem_map]
+    refine ⟨?_, ih (strict_tail h)⟩
+    rintro t ⟨y, hy, rfl⟩
+    exact strict_head_lt h y hy
+
+/-- the time point at `τ`: the markers of the frame rows with time `τ`, concatenated in frame order,
+labelled with the original index of the first such frame row -/
+def pointAt (l : List TRow) (τ : Int) : TRow :=
+  ⟨τ, (l.filter (atTime τ)).flatMap (·.markers), ((l.filter (atTime τ)).head?.map (·.orig)).getD 0⟩
+
+theorem timePoints_point (rows : List Row) (tp : TRow) (h : tp ∈ timePoints rows) :
+    tp = pointAt (splitRows rows) tp.time ∧ ∃ r ∈ splitRows rows, r.time = tp.time ∧ r.orig = tp.orig := by
+  have h1 := timePoints_filter rows tp.time
+  rw [strict_filter_self (timePoints_strict rows) h] at h1
+  unfold pointAt
+  cases hf : (splitRows rows).filter (atTime tp.time) with
+  | nil => rw [hf] at h1; simp [squash] at h1
+  | cons r rs =>
+    rw [hf] at h1
+    have hr : r ∈ (splitRows rows).filter (atTime tp.time) := by rw [hf]; simp
+    have hrt : r.time = tp.time := by simpa [atTime] using (List.mem_filter.mp hr).2
+    simp only [squash, List.cons.injEq, and_true] at h1
+    refine ⟨?_, r, (List.mem_filter.mp hr).1, hrt, by rw [h1]⟩
+    rw [h1]
+    simp
+
+/-- **Order inside a time point.** The markers of the merged time point at `τ` are the markers of the
+frame rows whose effective time is `τ`, concatenated in frame order. -/
+theorem timePoints_markers_order (rows : List Row) (tp : TRow) (h : tp ∈ timePoints rows) :
+    tp.markers = ((splitRows rows).filter (atTime tp.time)).flatMap (·.markers) := by
+  have := (timePoints_point rows tp h).1
+  exact congrArg TRow.markers this
+
+/-- the distinct effective times of a file, increasing -/
+def effTimes (rows : List Row) : List Int := (timePoints rows).map (·.time)
+
+theorem effTimes_increasing (rows : List Row) : (effTimes rows).Pairwise (· < ·) :=
+  strict_pairwise (timePoints_strict rows)
+
+theorem mem_effTimes (rows : List Row) (τ : Int) :
+    τ ∈ effTimes rows ↔ ∃ r ∈ splitRows rows, r.time = τ := by
+  constructor
+  · intro h
+    simp only [effTimes, List.mem_map] at h
+    obtain ⟨tp, htp, rfl⟩ := h
+    obtain ⟨r, hr, ht, _⟩ := (timePoints_point rows tp htp).2
+    exact ⟨r, hr, ht⟩
+  · rintro ⟨r, hr, rfl⟩
+    have h1 := timePoints_filter rows r.time
+    have hr' : r ∈ (splitRows rows).filter (atTime r.time) := List.mem_filter.mpr ⟨hr, by simp [atTime]⟩
+    cases hf : (splitRows rows).filter (atTime r.time) with
+    | nil => rw [hf] at hr'; simp at hr'
+    | cons a as =>
+      rw [hf] at h1
+      have : (⟨a.time, (a :: as).flatMap (·.markers), a.orig⟩ : TRow) ∈ (timePoints rows).filter (atTime r.time) := by
+        rw [h1]; simp [squash]
+      have hm := List.mem_filter.mp this
+      simp only [effTimes, List.mem_map]
+      refine ⟨_, hm.1, ?_⟩
+      simpa [atTime] using hm.2
+
+/-- a strictly increasing list is determined by its members -/
+theorem increasing_unique (a b : List Int) (ha : a.Pairwise (· < ·)) (hb : b.Pairwise (· < ·))
+    (h : ∀ x, x ∈ a ↔ x ∈ b) : a = b := by
+  have na : a.Nodup := ha.imp (fun h => by omega)
+  have nb : b.Nodup := hb.imp (fun h => by omega)
+  exact List.Perm.eq_of_pairwise (le := (· < ·)) (fun x y _ _ h1 h2 => by omega) ha hb
+    ((List.perm_ext_iff_of_nodup na nb).mpr h)
+
+/-- **Closed form of the time points.** `timePoints rows` is the list, in increasing `τ` over the
+distinct effective times (own onsets and onset + delay), of: `τ`, the markers of the frame rows at `τ`
+concatenated in frame order, and the original index of the first such frame row. `effTimes` is *the*
+strictly increasing enumeration of the effective times (`increasing_unique`). -/
+theorem timePoints_spec (rows : List Row) :
+    timePoints rows = (effTimes rows).map (pointAt (splitRows rows)) ∧
+    (effTimes rows).Pairwise (· < ·) ∧
+    ∀ τ, τ ∈ effTimes rows ↔ ∃ r ∈ splitRows rows, r.time = τ := by
+  refine ⟨?_, effTimes_increasing rows, mem_effTimes rows⟩
+  rw [effTimes, List.map_map]
+  conv => lhs; rw [← List.map_id (timePoints rows)]
+  apply List.map_congr_left
+  intro tp h
+  exact (timePoints_point rows tp h).1
+
+/-! ### file order does not matter when effective times differ -/
+
+/-- what a file row contributes at time `τ`: its own markers, and the markers of its Delay groups -/
+def ownC (τ : Int) (r : Row) : List Marker := if r.time = τ then r.markers else []
+def delC (τ : Int) (r : Row) : List Marker :=
+  r.delayed.flatMap fun p => if r.time + p.1 = τ then p.2 else []
+
+/-- the effective times of a file row: its onset and onset + delay of each Delay group -/
+def effTimesOf (r : Row) : List Int := r.time :: r.delayed.map (fun p => r.time + p.1)
+
+/-- effective times of different rows are different -/
+def DistinctAcross (rows : List Row) : Prop :=
+  rows.Pairwise fun a b => ∀ x ∈ effTimesOf a, ∀ y ∈ effTimesOf b, x ≠ y
+
+theorem own_filter (τ : Int) (rows : List Row) (i : Nat) :
+    ((splitRows.own i rows).filter (atTime τ)).flatMap (·.markers) = rows.flatMap (ownC τ) := by
+  induction rows generalizing i with
+  | nil => rfl
+  | cons r rs ih =>
+    simp only [splitRows.own, List.filter_cons, List.flatMap_cons, ownC, atTime, beq_iff_eq]
+    split <;> simp [ih]
+
+theorem delayed_filter (τ t : Int) (i : Nat) (ds : List (Int × List Marker)) :
+    ((ds.map (fun (p : Int × List Marker) => (⟨t + p.1, p.2, i⟩ : TRow))).filter (atTime τ)).flatMap (·.markers)
+      = ds.flatMap fun p => if t + p.1 = τ then p.2 else [] := by
+  induction ds with
+  | nil => rfl
+  | cons d ds ih =>
+    simp only [List.map_cons, List.filter_cons, List.flatMap_cons, atTime, beq_iff_eq]
+    split <;> simp_all
+
+theorem del_filter (τ : Int) (rows : List Row) (i : Nat) :
+    ((splitRows.del i rows).filter (atTime τ)).flatMap (·.markers) = rows.flatMap (delC τ) := by
+  induction rows generalizing i with
+  | nil => rfl
+  | cons r rs ih =>
+    simp only [splitRows.del, List.filter_append, List.flatMap_append, List.flatMap_cons, ih, delC]
+    congr 1
+    exact delayed_filter τ r.time i r.delayed
+
+theorem frame_markers (rows : List Row) (τ : Int) :
+    ((splitRows rows).filter (atTime τ)).flatMap (·.markers) =
+      rows.flatMap (ownC τ) ++ rows.flatMap (delC τ) := by
+  simp only [splitRows, List.filter_append, List.flatMap_append, own_filter, del_filter]
+
+theorem own_times (rows : List Row) (i : Nat) :
+    (splitRows.own i rows).map (·.time) = rows.map (·.time) := by
+  induction rows generalizing i with
+  | nil => rfl
+  | cons r rs ih => simp [splitRows.own, ih]
+
+theorem del_times (rows : List Row) (i : Nat) :
+    (splitRows.del i rows).map (·.time) = rows.flatMap fun r => r.delayed.map (fun p => r.time + p.1) := by
+  induction rows generalizing i with
+  | nil => rfl
+  | cons r rs ih => simp [splitRows.del, ih, List.flatMap_cons]
+
+theorem mem_frame_times (rows : List Row) (τ : Int) :
+    (∃ r ∈ splitRows rows, r.time = τ) ↔ ∃ row ∈ rows, τ ∈ effTimesOf row := by
+  have : (∃ r ∈ splitRows rows, r.time = τ) ↔ τ ∈ (splitRows rows).map (·.time) := by simp
+  rw [this, splitRows, List.map_append, own_times, del_times]
+  simp only [List.mem_append, List.mem_map, List.mem_flatMap, effTimesOf, List.mem_cons]
+  constructor
+  · rintro (⟨r, hr, rfl⟩ | ⟨r, hr, p, hp, rfl⟩)
+    · exact ⟨r, hr, Or.inl rfl⟩
+    · exact ⟨r, hr, Or.inr ⟨p, hp, rfl⟩⟩
+  · rintro ⟨r, hr, (rfl | ⟨p, hp, rfl⟩)⟩
+    · exact Or.inl ⟨r, hr, rfl⟩
+    · exact Or.inr ⟨r, hr, p, hp, rfl⟩
+
+/-- at most one element contributes: `flatMap` does not depend on the order -/
+theorem flatMap_perm_sparse {α β : Type} (f : α → List β) {l l' : List α} (hp : l.Perm l')
+    (hs : l.Pairwise fun a b => f a = [] ∨ f b = []) : l.flatMap f = l'.flatMap f := by
+  induction hp with
+  | nil => rfl
+  | cons x _ ih => simp [List.flatMap_cons, ih (List.pairwise_cons.mp hs).2]
+  | swap x y l =>
+    have := (List.pairwise_cons.mp hs).1 x (by simp)
+    rcases this with h | h <;> simp [List.flatMap_cons, h]
+  | trans p1 _ ih1 ih2 =>
+    rw [ih1 hs]
+    exact ih2 (p1.pairwise hs (fun h => h.symm))
+
+theorem delC_nil (τ : Int) (r : Row) (h : ¬ ∃ p ∈ r.delayed, r.time + p.1 = τ) : delC τ r = [] := by
+  simp only [delC, List.flatMap_eq_nil_iff]
+  intro p hp
+  have : ¬ r.time + p.1 = τ := fun e => h ⟨p, hp, e⟩
+  simp [this]
+
+theorem sparse_of_distinct (rows : List Row) (hd : DistinctAcross rows) (τ : Int) :
+    (rows.Pairwise fun a b => ownC τ a = [] ∨ ownC τ b = []) ∧
+    (rows.Pairwise fun a b => delC τ a = [] ∨ delC τ b = []) := by
+  constructor
+  · refine hd.imp ?_
+    intro a b hab
+    by_cases ha : a.time = τ
+    · by_cases hb : b.time = τ
+      · exact absurd (ha.trans hb.symm) (hab a.time (by simp [effTimesOf]) b.time (by simp [effTimesOf]))
+      · right; simp [ownC, hb]
+    · left; simp [ownC, ha]
+  · refine hd.imp ?_
+    intro a b hab
+    by_cases ha : ∃ p ∈ a.delayed, a.time + p.1 = τ
+    · by_cases hb : ∃ p ∈ b.delayed, b.time + p.1 = τ
+      · obtain ⟨p, hp, e1⟩ := ha
+        obtain ⟨q, hq, e2⟩ := hb
+        exact absurd (e1.trans e2.symm)
+          (hab _ (by simp only [effTimesOf, List.mem_cons, List.mem_map]; exact Or.inr ⟨p, hp, rfl⟩)
+               _ (by simp only [effTimesOf, List.mem_cons, List.mem_map]; exact Or.inr ⟨q, hq, rfl⟩))
+      · right; exact delC_nil τ b hb
+    · left; exact delC_nil τ a ha
+
+theorem effTimes_perm (rows rows' : List Row) (hp : rows.Perm rows') : effTimes rows' = effTimes rows := by
+  apply increasing_unique _ _ (effTimes_increasing _) (effTimes_increasing _)
+  intro τ
+  rw [mem_effTimes, mem_effTimes, mem_frame_times, mem_frame_times]
+  constructor
+  · rintro ⟨r, hr, h⟩; exact ⟨r, hp.mem_iff.mpr hr, h⟩
+  · rintro ⟨r, hr, h⟩; exact ⟨r, hp.mem_iff.mp hr, h⟩
+
+/-- **Rows take effect at their effective time, whatever the file order.** If the effective times
+(own onset, onset + delay) of different rows are all different, the time points of any permutation
+of the rows are the same list of (time, markers). -/
+theorem permutation_invariant (rows rows' : List Row) (hp : rows.Perm rows') (hd : DistinctAcross rows) :
+    (timePoints rows').map (fun r => (r.time, r.markers)) =
+      (timePoints rows).map (fun r => (r.time, r.markers)) := by
+  have e1 := (timePoints_spec rows).1
+  have e2 := (timePoints_spec rows').1
+  rw [e1, e2, effTimes_perm rows rows' hp, List.map_map, List.map_map]
+  apply List.map_congr_left
+  intro τ _
+  obtain ⟨s1, s2⟩ := sparse_of_distinct rows hd τ
+  simp only [Function.comp, pointAt, frame_markers]
+  rw [flatMap_perm_sparse (ownC τ) hp s1, flatMap_perm_sparse (delC τ) hp s2]
+
+/-- hence the temporal errors are the same -/
+theorem run_permutation_invariant (fold : Str → Str) (op : List Str) (t : Nat) (rows rows' : List Row)
+    (hp : rows.Perm rows') (hd : DistinctAcross rows) :
+    run fold op t ((timePoints rows').map (·.markers)) = run fold op t ((timePoints rows).map (·.markers)) := by
+  have := congrArg (List.map Prod.snd) (permutation_invariant rows rows' hp hd)
+  simp only [List.map_map] at this
+  exact congrArg (run fold op t) this
+
+theorem mem_own_orig (rows : List Row) (i : Nat) (t : TRow) (h : t ∈ splitRows.own i rows) :
+    ∃ row, i ≤ t.orig ∧ rows[t.orig - i]? = some row ∧ t.time ∈ effTimesOf row := by
+  induction rows generalizing i with
+  | nil => simp [splitRows.own] at h
+  | cons r rs ih =>
+    simp only [splitRows.own, List.mem_cons] at h
+    rcases h with rfl | h
+    · exact ⟨r, Nat.le_refl _, by simp, by simp [effTimesOf]⟩
+    · obtain ⟨row, h1, h2, h3⟩ := ih (i + 1) h
+      refine ⟨row, by omega, ?_, h3⟩
+      have : t.orig - i = (t.orig - (i + 1)) + 1 := by omega
+      rw [this, List.getElem?_cons_succ]; exact h2
+
+theorem mem_del_orig (rows : List Row) (i : Nat) (t : TRow) (h : t ∈ splitRows.del i rows) :
+    ∃ row, i ≤ t.orig ∧ rows[t.orig - i]? = some row ∧ t.time ∈ effTimesOf row := by
+  induction rows generalizing i with
+  | nil => simp [splitRows.del] at h
+  | cons r rs ih =>
+    simp only [splitRows.del, List.mem_append, List.mem_map] at h
+    rcases h with ⟨p, hp, rfl⟩ | h
+    · refine ⟨r, Nat.le_refl _, by simp, ?_⟩
+      simp only [effTimesOf, List.mem_cons, List.mem_map]
+      exact Or.inr ⟨p, hp, rfl⟩
+    · obtain ⟨row, h1, h2, h3⟩ := ih (i + 1) h
+      refine ⟨row, by omega, ?_, h3⟩
+      have : t.orig - i = (t.orig - (i + 1)) + 1 := by omega
+      rw [this, List.getElem?_cons_succ]; exact h2
+
+/-- **The label of a time point** is the index of a file row one of whose effective times it is
+(under `DistinctAcross`, *the* row owning that time: indices follow the permutation). -/
+theorem timePoints_orig (rows : List Row) (tp : TRow) (h : tp ∈ timePoints rows) :
+    ∃ row, rows[tp.orig]? = some row ∧ tp.time ∈ effTimesOf row := by
+  obtain ⟨r, hr, ht, ho⟩ := (timePoints_point rows tp h).2
+  rw [← ht, ← ho]
+  simp only [splitRows, List.mem_append] at hr
+  rcases hr with hr | hr
+  · obtain ⟨row, _, h2, h3⟩ := mem_own_orig rows 0 r hr; exact ⟨row, by simpa using h2, h3⟩
+  · obtain ⟨row, _, h2, h3⟩ := mem_del_orig rows 0 r hr; exact ⟨row, by simpa using h2, h3⟩
+
+/-- non-vacuity: two rows with one Delay group each, all four effective times different; swapped -/
+example : DistinctAcross [⟨8, [⟨.onset, ['a']⟩], [(16, [⟨.offset, ['a']⟩])]⟩, ⟨16, [⟨.inset, ['a']⟩], [(4, [])]⟩] := by
+  simp [DistinctAcross, effTimesOf]
+example : (timePoints [⟨16, [⟨.inset, ['a']⟩], [(4, [])]⟩, ⟨8, [⟨.onset, ['a']⟩], [(16, [⟨.offset, ['a']⟩])]⟩]).map
+    (fun r => (r.time, r.markers.length, r.orig)) = [(8, 1, 1), (16, 1, 0), (20, 0, 0), (24, 1, 1)] := by decide
+/-- rows sharing a time keep frame order inside the merged time point -/
+example : (timePoints [⟨8, [⟨.onset, ['a']⟩], []⟩, ⟨0, [], [(8, [⟨.inset, ['b']⟩])]⟩, ⟨8, [⟨.offset, ['a']⟩], []⟩]).map
+    (fun r => (r.time, r.markers.map (·.kind), r.orig)) = [(0, [], 1), (8, [.onset, .offset, .inset], 0)] := by decide
+
+/-! ### per-group structural checks (`DefValidator.validate_onset_offset`) -/
+
+/-- a well-formed temporal group: exactly one Def / Def-expand; apart from it, the anchor tag and
+Delay tags at most one child (none for Offset), which must be a group; the definition is known and is
+given a value exactly when it takes one -/
+def ShapeOk (defs : Str → Option Bool) (fold : Str → Str) (g : List Child) : Prop :=
+  ∀ k ai, firstAnchor 0 g = some (k, ai) →
+    ∃ ext di, defTagsOf 0 g = [(ext, di)] ∧
+      (restOf di ai 0 g).length ≤ (if k = .offset then 0 else 1) ∧
+      (∀ ch ∈ restOf di ai 0 g, ch.isGroup = true) ∧
+      ∃ tv, defs (fold (partitionSlash ext).1) = some tv ∧ tv = !(partitionSlash ext).2.isEmpty
+
+theorem handleDef_nil_iff (defs : Str → Option Bool) (fold : Str → Str) (ext : Str) :
+    handleDef defs fold ext = [] ↔
+      ∃ tv, defs (fold (partitionSlash ext).1) = some tv ∧ tv = !(partitionSlash ext).2.isEmpty := by
+  unfold handleDef
+  cases h : defs (fold (partitionSlash ext).1) with
+  | none => simp [h]
+  | some tv =>
+    simp only [h, Option.some.injEq, exists_eq_left']
+    cases tv <;> cases (partitionSlash ext).2.isEmpty <;> simp
+
+/-- **No structural issue iff the group is well formed.** -/
+theorem shape_ok_iff (defs : Str → Option Bool) (fold : Str → Str) (g : List Child) :
+    groupShapeIssues defs fold g = [] ↔ ShapeOk defs fold g := by
+  unfold groupShapeIssues ShapeOk
+  cases ha : firstAnchor 0 g with
+  | none => simp
+  | some a =>
+    obtain ⟨k, ai⟩ := a
+    cases hd : defTagsOf 0 g with
+    | nil => simp
+    | cons d ds =>
+      obtain ⟨ext, di⟩ := d
+      cases ds with
+      | cons d2 ds2 => simp
+      | nil =>
+        simp only [Option.some.injEq, Prod.mk.injEq, List.cons.injEq, and_true, and_imp]
+        constructor
+        · intro h
+          rintro k' ai' rfl rfl
+          refine ⟨ext, di, ⟨rfl, rfl⟩, ?_⟩
+          by_cases hlen : (restOf di ai 0 g).length > (if k = .offset then 0 else 1)
+          · simp [hlen] at h
+          · simp only [hlen, ↓reduceIte] at h
+            have h' := List.append_eq_nil_iff.mp h
+            refine ⟨by omega, ?_, (handleDef_nil_iff defs fold ext).mp h'.2⟩
+            intro ch hch
+            cases hr : restOf di ai 0 g with
+            | nil => rw [hr] at hch; cases hch
+            | cons c cs =>
+              rw [hr] at hch hlen h'
+              have hcs : cs = [] := by
+                cases cs with
+                | nil => rfl
+                | cons _ _ => simp only [List.length_cons] at hlen; split at hlen <;> omega
+              subst hcs
+              have : ch = c := by simpa using hch
+              subst this
+              have h1 := h'.1
+              simp only at h1
+              split at h1
+              · assumption
+              · cases h1
+        · intro h
+          obtain ⟨ext', di', ⟨e1, e2⟩, hlen, hall, hdef⟩ := h k ai rfl rfl
+          subst e1; subst e2
+          have : ¬ (restOf di ai 0 g).length > (if k = .offset then 0 else 1) := by omega
+          simp only [this, ↓reduceIte]
+          rw [(handleDef_nil_iff defs fold ext).mpr hdef, List.append_nil]
+          cases hr : restOf di ai 0 g with
+          | nil => rfl
+          | cons c cs => simp [hall c (by rw [hr]; simp)]
+
+/-- **Each malformation is reported with its kind.** No Def / Def-expand in a temporal group -/
+theorem no_def_kind (defs : Str → Option Bool) (fold : Str → Str) (g : List Child) (a : MKind × Nat)
+    (ha : firstAnchor 0 g = some a) (hd : defTagsOf 0 g = []) :
+    groupShapeIssues defs fold g = [.noDef] := by
+  simp [groupShapeIssues, ha, hd]
+
+/-- two or more Def / Def-expand -/
+theorem too_many_kind (defs : Str → Option Bool) (fold : Str → Str) (g : List Child) (a : MKind × Nat)
+    (ha : firstAnchor 0 g = some a) (hd : 2 ≤ (defTagsOf 0 g).length) :
+    groupShapeIssues defs fold g = [.tooManyDefs] := by
+  unfold groupShapeIssues
+  match h : defTagsOf 0 g, hd with
+  | _ :: _ :: _, _ => simp [ha]
+  | [_], hd => simp at hd
+  | [], hd => simp at hd
+
+/-- more than one further child, or any further child of an Offset group -/
+theorem wrong_number_kind (defs : Str → Option Bool) (fold : Str → Str) (g : List Child) (k : MKind)
+    (ai di : Nat) (ext : Str) (ha : firstAnchor 0 g = some (k, ai)) (hd : defTagsOf 0 g = [(ext, di)])
+    (hn : (if k = .offset then 0 else 1) < (restOf di ai 0 g).length) :
+    groupShapeIssues defs fold g = [.wrongNumberGroups] := by
+  simp [groupShapeIssues, ha, hd, hn]
+
+theorem offset_inner_group_kind (defs : Str → Option Bool) (fold : Str → Str) (g : List Child)
+    (ai di : Nat) (ext : Str) (ha : firstAnchor 0 g = some (.offset, ai)) (hd : defTagsOf 0 g = [(ext, di)])
+    (hn : restOf di ai 0 g ≠ []) : groupShapeIssues defs fold g = [.wrongNumberGroups] := by
+  apply wrong_number_kind defs fold g .offset ai di ext ha hd
+  cases h : restOf di ai 0 g with
+  | nil => exact absurd h hn
+  | cons _ _ => simp
+
+/-- a definition name that is not in the dictionary -/
+theorem unknown_def_kind (defs : Str → Option Bool) (fold : Str → Str) (g : List Child) (k : MKind)
+    (ai di : Nat) (ext : Str) (ha : firstAnchor 0 g = some (k, ai)) (hd : defTagsOf 0 g = [(ext, di)])
+    (hn : (restOf di ai 0 g).length ≤ (if k = .offset then 0 else 1))
+    (hu : defs (fold (partitionSlash ext).1) = none) :
+    ShapeErr.defUnmatched ∈ groupShapeIssues defs fold g := by
+  have : ¬ (restOf di ai 0 g).length > (if k = .offset then 0 else 1) := by omega
+  simp [groupShapeIssues, ha, hd, this, handleDef, hu]
+
+/-- a group without temporal tag is not looked at -/
+theorem not_temporal_no_issue (defs : Str → Option Bool) (fold : Str → Str) (g : List Child)
+    (ha : firstAnchor 0 g = none) : groupShapeIssues defs fold g = [] := by
+  simp [groupShapeIssues, ha]
+
+def exDefs : Str → Option Bool := fun n => if n = ['a'] then some false else if n = ['c'] then some true else none
+example : ShapeOk exDefs id [.anchor .onset, .defTag ['a'], .delay, .group []] := by
+  rw [← shape_ok_iff]; decide
+example : ShapeOk exDefs id [.anchor .offset, .group [['c', '/', '1']]] := by
+  rw [← shape_ok_iff]; decide
+example : [[Child.anchor .onset, .defTag ['a'], .defTag ['c', '/', '1']],
+           [.anchor .onset, .defTag ['a'], .group [], .group []],
+           [.anchor .offset, .defTag ['a'], .group []],
+           [.anchor .inset, .group []],
+           [.anchor .onset, .defTag ['a'], .tag],
+           [.anchor .onset, .defTag ['z'], .tag],
+           [.anchor .onset, .defTag ['c']],
+           [.defTag ['z'], .tag, .tag]].map (groupShapeIssues exDefs id) =
+    [[.tooManyDefs], [.wrongNumberGroups], [.wrongNumberGroups], [.noDef], [.tagOutsideGroup],
+     [.tagOutsideGroup, .defUnmatched], [.placeholderWrong], []] := by decide
 end HedVerif.C10
